@@ -135,6 +135,39 @@ def check_c07(seed, tier):
         finally:
             wipe_user_cache()
             clean()
+    # a re-delivered product: same file names, different content; the cache is refreshed with create_cache=True and then used
+    import synth
+    for trial in range(2 if tier == "quick" else 12):
+        level = rng.choice(["1.1", "1.5"])
+        images = rng.choice([[("HH", None)], [("HH", None), ("HV", None)]])
+        cfg_a = {"seed": rng.randrange(10**9), "level": level, "images": images, "n_lines": rng.randint(2, 5), "n_pixels": 3}
+        cfg_b = dict(cfg_a, seed=rng.randrange(10**9), n_lines=cfg_a["n_lines"] + rng.randint(1, 3))
+        prod_a, prod_b = products.build(cfg_a), products.build(cfg_b)
+        path, clean = products.place(prod_a, "local")
+        wipe_user_cache()
+        refresh_use = rng.random() < 0.5
+        case = {"cfg_first": cfg_a, "cfg_redelivered": cfg_b, "scenario": "create cache, replace the product in place, refresh with create_cache=True, open with use_cache=True",
+                "refresh_use_cache": refresh_use}
+        evals += 1
+        distinct.add(("redelivered", level, len(images), cfg_a["n_lines"], cfg_b["n_lines"], refresh_use))
+        try:
+            _open(path, use_cache=False, create_cache=True)
+            synth.write_product(prod_b, path)
+            if refresh_use:
+                wipe_user_cache()  # "refresh" = delete the stale cache and let the default open recreate it
+                _open(path, use_cache=True, create_cache=True)
+            else:
+                _open(path, use_cache=False, create_cache=True)
+            ref = fp(_open(path, use_cache=False))
+            got = fp(_open(path, use_cache=True))
+            d = treecmp.diff(ref, got)
+            if d:
+                viol.append({"case": case, "what": "cached tree differs from uncached after the cache was refreshed: " + d, "key": "cache-differs:local"})
+        except Exception as e:  # noqa: BLE001
+            viol.append({"case": case, "what": f"{type(e).__name__}: {e}"[:300], "key": common.failure_site(e)})
+        finally:
+            wipe_user_cache()
+            clean()
     return {"name": "oracle:C07 cache transparency", "evaluations": evals, "distinct": len(distinct), "violations": viol, "samples": samples}
 
 
@@ -208,9 +241,9 @@ def _w(obj):
 # ---------------------------------------------------------------------------------------------
 WRITER = r"""
 import os, sys, time
-path, text, chunk = sys.argv[1], open(sys.argv[2]).read(), int(sys.argv[3])
+path, text, chunk = sys.argv[1], open(sys.argv[2], "rb").read(), int(sys.argv[3])
 os.makedirs(os.path.dirname(path), exist_ok=True)
-with open(path, "w") as f:
+with open(path, "wb") as f:
     for i in range(0, len(text), chunk):
         f.write(text[i:i + chunk]); f.flush(); os.fsync(f.fileno()); time.sleep(0.002)
 """
@@ -219,32 +252,37 @@ with open(path, "w") as f:
 def check_c09(seed, tier):
     rng = random.Random(seed + 9)
     viol, evals, distinct, samples = [], 0, set(), []
-    for level in (("1.5",) if tier == "quick" else ("1.1", "1.5")):
-        cfg = {"seed": rng.randrange(10**9), "level": level, "images": [("HH", None), ("HV", None)], "n_lines": 2, "n_pixels": 2}
+    # (the second placement: a product directory with non-ASCII characters — its name is part of the index document)
+    for level, place in ((("1.5", "local"), ("1.1", "local-unicode")) if tier == "quick" else
+                         (("1.1", "local"), ("1.5", "local"), ("1.1", "local-unicode"), ("1.5", "local-unicode"))):
+        cfg = {"seed": rng.randrange(10**9), "level": level, "images": [("HH", None), ("HV", None)] if place == "local" else [("VV", None)],
+               "n_lines": 2, "n_pixels": 2}
         prod = products.build(cfg)
-        path, clean = products.place(prod, "local")
+        path, clean = products.place(prod, place)
         wipe_user_cache()
         try:
             ref = fp(_open(path, use_cache=False))
             _open(path, use_cache=False, create_cache=True)
             locs = cache_paths(path, [im.name for im in prod.images])
-            docs = {n: open(p[0]).read() for n, p in locs.items()}
+            docs = {n: open(p[0], "rb").read() for n, p in locs.items()}  # BYTE prefixes: what a killed writer leaves on disk
             wipe_user_cache()
             for im in prod.images:
                 doc = docs[im.name]
                 ks = list(range(len(doc) + 1))
                 if tier == "quick":
-                    closers = [i + 1 for i, ch in enumerate(doc) if ch in "}]"]
-                    ks = sorted(set([0, 1, 2, len(doc) - 1, len(doc)] + rng.sample(ks, 40) + rng.sample(closers, min(25, len(closers)))))
+                    closers = [i + 1 for i, ch in enumerate(doc) if ch in b"}]"]
+                    inside = [i for i, ch in enumerate(doc) if 0x80 <= ch < 0xC0]  # cuts inside a multi-byte character
+                    ks = sorted(set([0, 1, 2, len(doc) - 1, len(doc)] + rng.sample(ks, 40 if place == "local" else 15)
+                                    + rng.sample(closers, min(25 if place == "local" else 8, len(closers))) + inside))
                 for where in ("user", "adjacent"):
                     target = locs[im.name][0] if where == "user" else os.path.join(path, im.name + ".index")
                     for k in (ks if where == "user" or tier != "quick" else ks[::3]):
                         os.makedirs(os.path.dirname(target), exist_ok=True)
-                        with open(target, "w") as f:
+                        with open(target, "wb") as f:
                             f.write(doc[:k])
                         evals += 1
-                        distinct.add((level, im.name, where, k))
-                        case = {"cfg": cfg, "image": im.name, "where": where, "prefix_len": k, "doc_len": len(doc)}
+                        distinct.add((level, place, im.name, where, k))
+                        case = {"cfg": cfg, "placement": place, "image": im.name, "where": where, "prefix_len": k, "doc_len": len(doc)}
                         try:
                             got = fp(_open(path))
                             d = treecmp.diff(ref, got)
@@ -256,12 +294,12 @@ def check_c09(seed, tier):
                     # repair: torn user cache, then create_cache=True, then use_cache=True must use a complete document
                     if where == "user":
                         k = rng.randrange(1, len(doc))
-                        with open(target, "w") as f:
+                        with open(target, "wb") as f:
                             f.write(doc[:k])
                         evals += 1
                         try:
                             _open(path, create_cache=True)
-                            now = open(target).read()
+                            now = open(target, "rb").read()
                             got = fp(_open(path, use_cache=True))
                             if now != doc or treecmp.diff(ref, got):
                                 viol.append({"case": {"cfg": cfg, "image": im.name, "repair_after_prefix": k}, "what": "create_cache=True did not repair the torn cache"})
@@ -273,7 +311,7 @@ def check_c09(seed, tier):
                 im = prod.images[0]
                 target = locs[im.name][0]
                 docfile = os.path.join(common.SCRATCH, "doc.txt")
-                with open(docfile, "w") as f:
+                with open(docfile, "wb") as f:
                     f.write(docs[im.name])
                 script = os.path.join(common.SCRATCH, "writer.py")
                 with open(script, "w") as f:
@@ -288,7 +326,7 @@ def check_c09(seed, tier):
                         p.wait()
                     evals += 1
                     distinct.add(("kill", trial))
-                    left = len(open(target).read()) if os.path.isfile(target) else None
+                    left = len(open(target, "rb").read()) if os.path.isfile(target) else None
                     try:
                         got = fp(_open(path))
                         if treecmp.diff(ref, got):
@@ -355,6 +393,9 @@ def check_c10(seed, tier):
                 try:
                     if op["op"] == "open":
                         opts = {k: v for k, v in op.items() if k != "op"}
+                        if step_no % 2 == 0:
+                            # every documented option may be given, also the filesystem arguments (here: a no-op one for local files)
+                            opts["storage_options"] = {"auto_mkdir": False}
                         before = copy.deepcopy(opts)
                         cache_before = dir_hash(os.environ["XDG_CACHE_HOME"])
                         stat_before = dir_stat(path)
